@@ -61,6 +61,7 @@ type Engine struct {
 	seq       int
 	supersededAt map[*Term]int
 	havocConst map[*Term]bool
+	havocLoc  map[*Term]*havocTarget // fresh heap value -> where it was stored
 	regionFrame map[*Term]*regionFrameRec // fresh region array -> what it equals outside [lo,hi)
 	obls      []*Obligation
 	curFunc   string
@@ -74,6 +75,7 @@ type Engine struct {
 	inlineDepthLimit int
 	nocheck   bool
 	ghostDepth int
+	pendingFacts []*Term
 	caseCombo []int
 	astPkgs   map[string][]*ast.File
 	errGlobals []*Term
@@ -102,6 +104,7 @@ func (e *Engine) resetRun() {
 	e.seq = 0
 	e.supersededAt = map[*Term]int{}
 	e.havocConst = map[*Term]bool{}
+	e.havocLoc = map[*Term]*havocTarget{}
 	e.regionFrame = map[*Term]*regionFrameRec{}
 	e.obls = nil
 	e.safetyN = map[string]int{}
@@ -163,6 +166,7 @@ type deferRec struct {
 }
 
 type loopRec struct {
+	backEdges int
 	head    *State
 	measure *Term
 	ord     int
@@ -1497,27 +1501,71 @@ func (e *Engine) enterLoop(fr *Frame, st *State, h *ssa.BasicBlock, bo *blockOrd
 	}
 	var targets []*havocTarget
 	if spec.HasAssigns {
+		// items are processed in order, each evaluated in the state havocked so far (so that
+		// "*w, bytes(w.raw)" means: the region w.raw denotes at an arbitrary iteration)
 		for _, a := range spec.Assigns {
-			targets = append(targets, e.assignTargets(fr, pre, a, nil)...)
+			ts := e.assignTargets(fr, st, a, nil)
+			targets = append(targets, ts...)
+			byHeap := map[string]bool{}
+			for _, t := range ts {
+				byHeap[t.heap] = true
+			}
+			var hn []string
+			for n := range byHeap {
+				hn = append(hn, n)
+			}
+			sort.Strings(hn)
+			for _, n := range hn {
+				if e.havocHeaps[h][n] {
+					e.havocHeap(fr, st, pre, n, ts, true, fmt.Sprintf("L%d", ord))
+				}
+			}
 		}
-	}
-	var hn []string
-	for n := range e.havocHeaps[h] {
-		hn = append(hn, n)
-	}
-	sort.Strings(hn)
-	for _, n := range hn {
-		e.havocHeap(fr, st, pre, n, targets, spec.HasAssigns, fmt.Sprintf("L%d", ord))
+	} else {
+		var hn []string
+		for n := range e.havocHeaps[h] {
+			hn = append(hn, n)
+		}
+		sort.Strings(hn)
+		for _, n := range hn {
+			e.havocHeap(fr, st, pre, n, nil, false, fmt.Sprintf("L%d", ord))
+		}
 	}
 	if e.havocClock[h] {
 		nc := tb.Fresh("clk", SInt)
 		e.addFact(st, tb.IntCmp(">=", nc, pre.clock))
 		st.clock = nc
 	}
+	subst := map[*Term]*Term{}
+	var invTerms []*Term
 	for _, cl := range spec.Invariants {
 		g := e.evalClause(fr, st, fr.entry, cl, nil)
 		e.addFactQ(st, g)
-		e.propagateEqualities(st, g)
+		invTerms = append(invTerms, g)
+	}
+	for k, v := range e.propagateEqualities(st, tb.And(invTerms...)) {
+		subst[k] = v
+	}
+	if len(subst) > 0 {
+		// make the whole head state (and the recorded havoc targets / region frames) use the defining terms
+		for pass := 0; pass < 2; pass++ {
+			for k, v := range subst {
+				subst[k] = tb.Subst(v, subst)
+			}
+		}
+		e.substState(st, subst)
+		for _, t := range targets {
+			t.ref = tb.Subst(t.ref, subst)
+			if t.lo != nil {
+				t.lo = tb.Subst(t.lo, subst)
+				t.hi = tb.Subst(t.hi, subst)
+			}
+		}
+		for _, rf := range e.regionFrame {
+			rf.base = tb.Subst(rf.base, subst)
+			rf.lo = tb.Subst(rf.lo, subst)
+			rf.hi = tb.Subst(rf.hi, subst)
+		}
 	}
 	lr := &loopRec{head: st.clone(), ord: ord, spec: spec, targets: targets}
 	if spec.Decreases != nil {
@@ -1546,6 +1594,18 @@ func (e *Engine) havocHeap(fr *Frame, st, pre *State, n string, targets []*havoc
 		}
 		fv := tb.Fresh(hint+"_"+n+"_v", elemSort)
 		e.havocConst[fv] = true
+		e.havocLoc[fv] = &havocTarget{heap: n, ref: t.ref}
+		switch elemSort {
+		case SSlice:
+			e.addFact(st, e.wfSlice(st, fv))
+		case SStr:
+			e.addFact(st, e.wfStr(st, fv))
+		case SRef:
+			e.addFact(st, tb.IntCmp("<", tb.RootID(fv), st.clock))
+		case SIface:
+			e.addFact(st, tb.IntCmp("<", tb.RootID(tb.Acc(fv, 1)), st.clock))
+			e.addFact(st, tb.Implies(tb.Eq(tb.Acc(fv, 0), tb.Int(0)), tb.Eq(tb.Acc(fv, 1), tb.RefNil())))
+		}
 		prev := tb.Select(cur, t.ref)
 		if e.havocConst[prev] {
 			e.seq++
@@ -1623,6 +1683,11 @@ func (e *Engine) backEdge(fr *Frame, st *State, from, h *ssa.BasicBlock) {
 	if e.restart {
 		return
 	}
+	lr.backEdges++
+	beSuffix := ""
+	if lr.backEdges > 1 {
+		beSuffix = fmt.Sprintf("~%d", lr.backEdges)
+	}
 	for _, cl := range lr.spec.Invariants {
 		g := e.evalClause(fr, st, fr.entry, cl, nil)
 		var sp *SplitHint
@@ -1647,15 +1712,15 @@ func (e *Engine) backEdge(fr *Frame, st *State, from, h *ssa.BasicBlock) {
 				tb.Implies(tb.BVCmp("bvsge", hi, tb.BVBin("bvadd", base, tb.BV(int64(sp.Count), 64))), tb.Subst(g.Args[0], map[*Term]*Term{k: hi})), cl)
 			continue
 		}
-		e.addObligation(fr, st, "inv-keep", fmt.Sprintf("loop%d.%s", lr.ord, cl.Label), g, cl)
+		e.addObligation(fr, st, "inv-keep", fmt.Sprintf("loop%d.%s%s", lr.ord, cl.Label, beSuffix), g, cl)
 	}
 	if lr.spec.Decreases != nil {
 		m := e.evalClause(fr, st, fr.entry, lr.spec.Decreases, nil)
 		g := tb.And(tb.BVCmp("bvsle", tb.BV(0, 64), lr.measure), tb.BVCmp("bvslt", m, lr.measure))
-		e.addObligation(fr, st, "dec", fmt.Sprintf("loop%d", lr.ord), g, lr.spec.Decreases)
+		e.addObligation(fr, st, "dec", fmt.Sprintf("loop%d%s", lr.ord, beSuffix), g, lr.spec.Decreases)
 	}
 	if lr.spec.HasAssigns {
-		e.frameObligations(fr, st, lr.head, lr.targets, fmt.Sprintf("loop%d", lr.ord), lr.head.clock)
+		e.frameObligations(fr, st, lr.head, lr.targets, fmt.Sprintf("loop%d%s", lr.ord, beSuffix), lr.head.clock)
 	}
 }
 
@@ -2065,20 +2130,9 @@ func (e *Engine) smallUpperBound(n *Term) int64 {
 // propagateEqualities: top-level conjuncts of an assumed invariant of the form field-path(X) == t, where
 // X is the fresh value of a havocked cell and t does not mention X, are substituted into the cell so
 // that later terms are built from t directly (the equality itself stays among the facts).
-func (e *Engine) propagateEqualities(st *State, g *Term) {
+func (e *Engine) propagateEqualities(st *State, g *Term) map[*Term]*Term {
 	tb := e.tb
-	var conj []*Term
-	var flat func(t *Term)
-	flat = func(t *Term) {
-		if t.Op == "and" {
-			for _, a := range t.Args {
-				flat(a)
-			}
-			return
-		}
-		conj = append(conj, t)
-	}
-	flat(g)
+	applied := map[*Term]*Term{}
 	// map fresh cell constants to their cells
 	cellOf := map[*Term]*Cell{}
 	for c, v := range st.cells {
@@ -2106,20 +2160,42 @@ func (e *Engine) propagateEqualities(st *State, g *Term) {
 		rec(t)
 		return found
 	}
-	for _, c := range conj {
-		var lhs, rhs *Term
-		switch {
-		case c.Op == "=":
-			lhs, rhs = c.Args[0], c.Args[1]
-		case c.Sort == SBool && (c.Op == "acc"):
-			lhs, rhs = c, tb.True()
-		case c.Op == "not" && c.Args[0].Op == "acc":
-			lhs, rhs = c.Args[0], tb.False()
-		default:
-			continue
+	eqs := e.equalitiesOf([]*Term{g})
+	isFreshRoot := func(t *Term) bool {
+		if t.Op != "const" {
+			return false
+		}
+		if _, ok := cellOf[t]; ok {
+			return true
+		}
+		_, ok := e.havocLoc[t]
+		return ok
+	}
+	sort.SliceStable(eqs, func(i, j int) bool {
+		wi := isFreshRoot(eqs[i][0]) || isFreshRoot(eqs[i][1])
+		wj := isFreshRoot(eqs[j][0]) || isFreshRoot(eqs[j][1])
+		return wi && !wj
+	})
+	for _, pr := range eqs {
+		lhs, rhs := pr[0], pr[1]
+		if os.Getenv("GOVC_DEBUG") != "" {
+			fmt.Fprintf(os.Stderr, "PROP-EQ %s == %s\n", tb.Show(lhs), tb.Show(rhs))
+		}
+		// when both sides are field paths of fresh values, rewrite the younger one
+		rootOf := func(t *Term) *Term {
+			for t.Op == "acc" {
+				t = t.Args[0]
+			}
+			return t
+		}
+		if rl, rr := rootOf(lhs), rootOf(rhs); rl.Op == "const" && rr.Op == "const" && rl.id < rr.id {
+			if _, ok := e.havocLoc[rr]; ok {
+				lhs, rhs = rhs, lhs
+			} else if _, ok := cellOf[rr]; ok {
+				lhs, rhs = rhs, lhs
+			}
 		}
 		for pass := 0; pass < 2; pass++ {
-			// lhs must be acc*(X)
 			var path []int
 			x := lhs
 			ok := true
@@ -2138,14 +2214,42 @@ func (e *Engine) propagateEqualities(st *State, g *Term) {
 				path = append([]int{idx}, path...)
 				x = x.Args[0]
 			}
-			cell, isCell := cellOf[x]
-			if ok && isCell && len(path) > 0 && !mentions(rhs, x) {
+			done := false
+			if cell, isCell := cellOf[x]; ok && isCell && !mentions(rhs, x) {
 				cur := st.cells[cell]
-				st.cells[cell] = e.withPath(cur, path, rhs)
+				if len(path) > 0 || cur == x {
+					st.cells[cell] = e.withPath(cur, path, rhs)
+					done = true
+				}
+			} else if loc, isHeap := e.havocLoc[x]; ok && isHeap && !mentions(rhs, x) {
+				if h := st.heaps[loc.heap]; h != nil {
+					cur := tb.Select(h, loc.ref)
+					if cur == x || (cur.Op == "ctor" && mentions(cur, x)) {
+						st.heaps[loc.heap] = tb.Store(h, loc.ref, e.withPath(cur, path, rhs))
+						done = true
+					}
+				}
+			}
+			if done {
+				applied[lhs] = rhs
 				break
 			}
 			lhs, rhs = rhs, lhs
 		}
+	}
+	return applied
+}
+
+// substState applies a term substitution to every cell and heap of the state.
+func (e *Engine) substState(st *State, m map[*Term]*Term) {
+	if len(m) == 0 {
+		return
+	}
+	for c, v := range st.cells {
+		st.cells[c] = e.tb.Subst(v, m)
+	}
+	for n, h := range st.heaps {
+		st.heaps[n] = e.tb.Subst(h, m)
 	}
 }
 
@@ -2154,4 +2258,114 @@ func (e *Engine) withPath(v *Term, path []int, nv *Term) *Term {
 		return nv
 	}
 	return e.tb.With(v, path[0], e.withPath(e.tb.Acc(v, path[0]), path[1:], nv))
+}
+
+
+// impliedLiterals returns literals (term, polarity) that follow from assuming g, by flattening
+// conjunctions and unit propagation over negated conjunctions / implications (the shape Go's && and
+// ==> chains take after translation).
+func (e *Engine) impliedLiterals(gs []*Term) map[*Term]bool {
+	tb := e.tb
+	known := map[*Term]bool{}
+	var pending []*Term
+	var atoms func(t *Term, pos bool)
+	atoms = func(t *Term, pos bool) {
+		switch {
+		case t.Op == "and" && pos:
+			for _, a := range t.Args {
+				atoms(a, true)
+			}
+		case t.Op == "or" && !pos:
+			for _, a := range t.Args {
+				atoms(a, false)
+			}
+		case t.Op == "not":
+			atoms(t.Args[0], !pos)
+		case t.Op == "and" && !pos:
+			pending = append(pending, t)
+		case t.Op == "or" && pos:
+			var neg []*Term
+			for _, a := range t.Args {
+				neg = append(neg, tb.Not(a))
+			}
+			pending = append(pending, tb.mk("and", SBool, "", nil, neg...))
+		case t.Op == "=>" && pos:
+			pending = append(pending, tb.mk("and", SBool, "", nil, t.Args[0], tb.Not(t.Args[1])))
+		case t.IsLit() || t.Op == "forall" || t.Op == "=>":
+		default:
+			known[t] = pos
+		}
+	}
+	for _, g := range gs {
+		atoms(g, true)
+	}
+	lit := func(x *Term) (*Term, bool) {
+		if x.Op == "not" {
+			return x.Args[0], false
+		}
+		return x, true
+	}
+	for changed := true; changed; {
+		changed = false
+		var rest []*Term
+		for _, n := range pending {
+			var open []*Term
+			sat := false
+			for _, x := range n.Args {
+				y, pos := lit(x)
+				if v, ok := known[y]; ok {
+					if v != pos {
+						sat = true
+					}
+					continue
+				}
+				if y.Op == "and" && pos {
+					all := true
+					for _, z := range y.Args {
+						zz, zp := lit(z)
+						if v, ok := known[zz]; !ok || v != zp {
+							all = false
+						}
+					}
+					if all {
+						continue
+					}
+				}
+				open = append(open, x)
+			}
+			if sat {
+				continue
+			}
+			if len(open) == 1 {
+				atoms(open[0], false)
+				changed = true
+				continue
+			}
+			rest = append(rest, n)
+		}
+		pending = rest
+	}
+	return known
+}
+
+// equalitiesOf lists the (lhs, rhs) pairs of the equalities (and boolean accessor literals) implied by gs.
+func (e *Engine) equalitiesOf(gs []*Term) [][2]*Term {
+	tb := e.tb
+	var out [][2]*Term
+	lits := e.impliedLiterals(gs)
+	var keys []*Term
+	for t := range lits {
+		keys = append(keys, t)
+	}
+	sort.Slice(keys, func(i, j int) bool { return keys[i].id < keys[j].id })
+	for _, t := range keys {
+		v := lits[t]
+		switch {
+		case t.Op == "=" && v:
+			out = append(out, [2]*Term{t.Args[0], t.Args[1]})
+		case t.Op == "acc" && t.Sort == SBool:
+			out = append(out, [2]*Term{t, tb.Bool(v)})
+		}
+	}
+	return out
 }
